@@ -97,6 +97,10 @@ pub fn train(cfg: &TrainCfg, max_iter: u64) -> Result<Model, String> {
     }
 }
 
+/// two feature strings sharing a prefix of 258 bytes
+const LONG_X: &str = "AAAAAAAAAAAAAAAAAAAAAAAAAAAAAAAAAAAAAAAAAAAAAAAAAAAAAAAAAAAAAAAAAAAAAAAAAAAAAAAAAAAAAAAAAAAAAAAAAAAAAAAAAAAAAAAAAAAAAAAAAAAAAAAAAAAAAAAAAAAAAAAAAAAAAAAAAAAAAAAAAAAAAAAAAAAAAAAAAAAAAAAAAAAAAAAAAAAAAAAAAAAAAAAAAAAAAAAAAAAAAAAAAAAAAAAAAAAAAAAAAAAAAAAAAAAAAAAAAAAAAAAAAAAAAAx,x";
+const LONG_Y: &str = "AAAAAAAAAAAAAAAAAAAAAAAAAAAAAAAAAAAAAAAAAAAAAAAAAAAAAAAAAAAAAAAAAAAAAAAAAAAAAAAAAAAAAAAAAAAAAAAAAAAAAAAAAAAAAAAAAAAAAAAAAAAAAAAAAAAAAAAAAAAAAAAAAAAAAAAAAAAAAAAAAAAAAAAAAAAAAAAAAAAAAAAAAAAAAAAAAAAAAAAAAAAAAAAAAAAAAAAAAAAAAAAAAAAAAAAAAAAAAAAAAAAAAAAAAAAAAAAAAAAAAAAAAAAAAAy,x";
+
 const CHARDEFS: [&str; 2] = [
     "DEFAULT 0 1 0\nSPACE 0 1 0\nAL 1 1 2\nKJ 0 0 2\n0x0020 SPACE\n0x0061..0x007A AL\n0x3040..0x309F KJ\n",
     "DEFAULT 0 1 0\nSPACE 0 1 0\nAL 0 0 1\nKJ 1 1 0\n0x0020 SPACE\n0x0061..0x007A AL KJ\n0x3040..0x309F KJ\n",
@@ -110,6 +114,7 @@ pub fn family(tier: Tier) -> Vec<TrainCfg> {
             ("aaaaaaaaaabbbbbbbbbbccccccccccaaaaaaaaaabbbbbbbbbbccccccccccaaaa,1", "N,late-comma-at-64"),
             ("ccccccccccccccccccccccccccccccccccccccccccccccccccccccccccccccccccccccccccccccccccccccccccccccccccccccccccccccccccccccccccccccccc\"q", "P,late-quote-at-129"), ("bbbbbbbbbbccccccccccaaaaaaaaaabbbbbbbbbbc\"c", "V,\"long,late quote in a feature cell that is itself long enough\"")]),
         ("short", vec![("a", "N"), ("b", "V"), ("ab", "N,x,extra"), ("c", "*")]),
+        ("longfeat", vec![("a", "N,x"), ("b", LONG_X), ("b", LONG_Y), ("c", "P,x"), ("ab", "V,y")]),
     ];
     let unks: Vec<(&str, Vec<(&str, &str)>)> = vec![
         ("unk1", vec![("DEFAULT", "U,*"), ("SPACE", "S,*"), ("AL", "N,*"), ("KJ", "N,k")]),
@@ -129,6 +134,7 @@ pub fn family(tier: Tier) -> Vec<TrainCfg> {
         "zz\tN,*\nb\tV,y\nEOS\n",           // out-of-lexicon token compatible with an unknown entry
         "q\tXX,yy\nc\tP,x\nEOS\nb\tV,y\nc\tP,x\nEOS\n", // virtual edge
     ];
+    let long_corpus = format!("b\t{LONG_X}\nc\tP,x\nEOS\na\tN,x\nb\t{LONG_Y}\nEOS\nb\t{LONG_X}\nb\t{LONG_Y}\nEOS\n");
     let users: Vec<Vec<&str>> = vec![
         vec![],
         vec!["ac,0,0,0,N,x\nca,0,0,0,V,new\n"],
@@ -146,6 +152,11 @@ pub fn family(tier: Tier) -> Vec<TrainCfg> {
                     let bigram: Vec<(String, String)> = (0..3).filter(|i| tmask & (4 << i) != 0).map(|i| (bi_menu[i].0.to_string(), bi_menu[i].1.to_string())).collect();
                     for (ri, rw) in rewrites.iter().enumerate() {
                         for (coi, corpus) in corpora.iter().enumerate() {
+                            // the long-feature lexicon is trained on a corpus that uses its long features
+                            let corpus: &str = if *sn == "longfeat" { &long_corpus } else { corpus };
+                            if *sn == "longfeat" && coi > 0 {
+                                continue;
+                            }
                             for (usi, us) in users.iter().enumerate() {
                                 // quick tier: a deterministic half of the product, keeping every axis value
                                 if tier == Tier::Quick && (tmask as usize + ri + coi + 2 * usi + ci) % 3 != 0 {
@@ -1202,7 +1213,7 @@ pub fn run_c15(tier: Tier) -> i32 {
     let mut fam = family(tier);
     // models without user lexicons in the configuration (the history adds them)
     fam.retain(|c| c.users.is_empty());
-    let stride = tier.pick(40, 12);
+    let stride = tier.pick(40, 24);
     let fam: Vec<TrainCfg> = fam.into_iter().enumerate().filter(|(i, _)| i % stride == 0).map(|x| x.1).collect();
     let depth = tier.pick(3, 4);
     let ops = [MOp::Generate, MOp::GenerateBigram, MOp::WriteRead, MOp::AddUser(0), MOp::AddUser(1), MOp::AddUser(2)];
